@@ -9,6 +9,8 @@ import (
 	"fmt"
 	aftpb "github.com/openconfig/gribi/v1/proto/gribi_aft"
 	"github.com/openconfig/gribigo/server"
+	"github.com/openconfig/ygot/ygot"
+	"reflect"
 	"sort"
 	"strings"
 	"sync"
@@ -57,10 +59,17 @@ func richNH(idx uint64, ip string) *aftpb.Afts_NextHopKey {
 	return n
 }
 
+func popNH(idx uint64, ip string, pop bool) *aftpb.Afts_NextHopKey {
+	n := ribx.NHEntry(idx, ip)
+	n.NextHop.PopTopLabel = ribx.Bool(pop)
+	return n
+}
+
 func universe(thorough bool) []slot {
 	u := []slot{
 		{"nh1@D", []*ent{nil, {D, ribx.NHEntry(1, "1.1.1.1")}, {D, richNH(1, "9.9.9.9")}}},
-		{"nh2@D", []*ent{nil, {D, ribx.NHEntry(2, "2.2.2.2")}}},
+		// (a boolean leaf set EXPLICITLY to false: "false" and "unset" are different payloads; thorough adds "true")
+		{"nh2@D", []*ent{nil, {D, popNH(2, "2.2.2.2", false)}}},
 		{"nhg1@D", []*ent{nil, {D, ribx.NHGEntry(1, 0, m(1, 1))}, {D, ribx.NHGEntry(1, 0, m(1, 1), m(2, 2))}}},
 		{"v4p@D", []*ent{nil, {D, ribx.V4Entry("10.0.0.0/8", 1, "", nil)}, {D, ribx.V4Entry("10.0.0.0/8", 1, V, []byte{7})}}},
 		{"mpls100@D", []*ent{nil, {D, ribx.MPLSEntry(100, 1, "", nil)}}},
@@ -73,6 +82,7 @@ func universe(thorough bool) []slot {
 		u = append(u[:4], u[5:]...)
 	}
 	if thorough {
+		u[1].alts = append(u[1].alts, &ent{D, popNH(2, "2.2.2.2", true)})
 		u[2].alts = append(u[2].alts, &ent{D, ribx.NHGEntry(1, 0, m(2, 1))})
 		u[3].alts = append(u[3].alts, &ent{D, ribx.V4Entry("10.0.0.0/8", 2, "", []byte{1})})
 		u = append(u,
@@ -307,6 +317,18 @@ func one(u []slot, in, tg state, tv int, base uint64) (string, []fail) {
 	got, _ := ribx.Snapshot(target)
 	if d := ribx.Diff(want, got); d != "" {
 		bad("C15/target-differs-from-intended/"+ribx.DiffKinds(want, got), "%s: after applying the %d operations the target differs from the intended RIB: %s", name, len(seq), d)
+	} else if ci, err1 := intended.RIBContents(); err1 == nil {
+		// The comparison above reads both RIBs through the repository's own struct-to-proto converters - the same
+		// ones the reconciler uses to build its operations: a leaf they drop is dropped on both sides. Compare the
+		// stored structures themselves as well.
+		if ct, err2 := target.RIBContents(); err2 == nil {
+			for ni, ri := range ci {
+				if rt, ok := ct[ni]; ok && !reflect.DeepEqual(ri, rt) {
+					d, _ := ygot.Diff(ri, rt)
+					bad("C15/target-differs-from-intended/stored-structures", "%s: after applying the %d operations network instance %s of the target differs from the intended one in the stored structures (invisible through the proto converters): %v", name, len(seq), ni, d)
+				}
+			}
+		}
 	}
 	oc := "converged"
 	if equal {
